@@ -20,13 +20,56 @@ class InjectedFault(Exception):
     """A data source failed (fault F2)."""
 
 
+class LiquidKey:
+    """A key object with a ``__liquid__`` method (resolved to a primitive by the engine)."""
+
+    __slots__ = ("v",)
+
+    def __init__(self, v) -> None:
+        self.v = v
+
+    def __liquid__(self):
+        return self.v
+
+    def __str__(self) -> str:
+        return str(self.v)
+
+    def __repr__(self) -> str:
+        return f"LiquidKey({self.v!r})"
+
+    def __eq__(self, other) -> bool:
+        return isinstance(other, LiquidKey) and other.v == self.v or other == self.v
+
+    def __hash__(self) -> int:
+        return hash(self.v)
+
+
+def _make_exc(kind: str, msg: str) -> BaseException:
+    if kind == "KeyError":
+        return KeyError(msg)
+    if kind == "IndexError":
+        return IndexError(msg)
+    if kind == "TypeError":
+        return TypeError(msg)
+    if kind == "LiquidTypeError":
+        from liquid2.exceptions import LiquidTypeError
+
+        return LiquidTypeError(msg, token=None)
+    if kind == "UndefinedError":
+        from liquid2.exceptions import UndefinedError
+
+        return UndefinedError(msg, token=None)
+    return InjectedFault(msg)
+
+
 class DropCtl:
     """Per-render control block: access log, counters and armed faults."""
 
-    __slots__ = ("log", "count", "fail_keys", "fail_at", "fired", "tag", "keep_log")
+    __slots__ = ("log", "count", "fail_keys", "fail_at", "fired", "tag", "keep_log", "exc")
 
     def __init__(self, tag: str = "", *, fail_keys=(), fail_at: int | None = None,
-                 keep_log: bool = False) -> None:
+                 keep_log: bool = False, exc: str = "InjectedFault") -> None:
+        self.exc = exc
         self.log: list[str] = []
         self.count = 0
         self.fail_keys = frozenset(fail_keys)
@@ -41,10 +84,10 @@ class DropCtl:
             self.log.append(f"{path}.{key}")
         if self.fail_at is not None and self.count == self.fail_at:
             self.fired += 1
-            raise InjectedFault(f"{self.tag}#{self.count}")
+            raise _make_exc(self.exc, f"{self.tag}#{self.count}")
         if self.fail_keys and f"{path}.{key}" in self.fail_keys:
             self.fired += 1
-            raise InjectedFault(f"{self.tag}:{path}.{key}")
+            raise _make_exc(self.exc, f"{self.tag}:{path}.{key}")
 
 
 class SyncOnlyDrop(Mapping):
@@ -128,6 +171,8 @@ class SimSeqDrop(Sequence):
 
 # ``spec``: {"mode": "all"|"none"|"paths", "paths": set[str], "seq": bool, "sync": set[str]}
 def _wrap(v, spec, ctl: DropCtl, path: str):
+    if isinstance(v, dict) and len(v) == 1 and "__liquid__" in v:
+        return LiquidKey(v["__liquid__"])
     if isinstance(v, dict):
         m = spec.get("mode", "all")
         if m == "all" or (m == "paths" and path in spec["paths"]):
